@@ -237,7 +237,8 @@ def repo_tests_finish(ctx: Ctx, started):
         s = jsrc[rj["t"]]
         ctx.violation(f"RepoTests{rj['clause']}:{s['lines'][rj['i'] - 1]['op']}", "RepoTests" + rj["clause"],
                       {"test": s["test"], "i": rj["i"], "repo_jar_lines": s["lines"], "what": "Client session of the repository's tests"}, kind="c13-repo")
-    if p.returncode != 0 and nrej == 0:
+    ctx.notes["repo_tests"]["pytest_returncode"] = p.returncode
+    if p.returncode != 0 and nrej == 0 and not ctx.violations:  # violations judged elsewhere in this run take precedence over this guard
         raise tlc.MachineryError("the repository's tests fail under the recording plugin and nothing was rejected:\n" + (p.stdout + p.stderr)[-1500:])
     ctx.count(n_dump + len(jl) - len(jsrc), None)
     for t in list(src)[:400]:
